@@ -494,12 +494,14 @@ func c14History(r *Run, idx int) {
 					}
 				}
 			}
-			// The open finding, identified from the secondary store's own log: after the overwrite (or
-			// load) that made the read stale had completed, the secondary store handed the OLDER value to
-			// some Get of this key (this read, or an earlier one that promoted it into memory), and the
-			// newer value had not been written to the secondary store by then - its demotion was dropped,
-			// not admitted, or decided while its entry still counted as clean. Any other stale answer
-			// (the newer value HAD reached the secondary store; nothing was promoted) is a different failure.
+			// The open finding, identified from the secondary store's own log. A Set invalidates the key's
+			// copy in the secondary store; if that Delete FAILS (the store returned an error) the older copy
+			// survives, and once the newer value has left memory the store hands the older one out (directly,
+			// or by promotion into memory where other Gets read it). Signature: after the newer value was
+			// established (its Set returned or a completed read returned it) the store handed the older value
+			// to some Get of this key, the newer value had not been written to the store before that, AND the
+			// log shows a failed Delete of this key since the newer write was invoked. Without such a failed
+			// Delete the stale hand-out is a violation.
 			{
 				explained := false
 				for _, rd := range core {
@@ -510,7 +512,6 @@ func c14History(r *Run, idx int) {
 						if !w.isWrite() || w.Val == rd.Val {
 							continue
 						}
-						// w's value is established once w returned or a completed read returned it
 						est := w.Ret
 						for _, o := range core {
 							if o.isRead() && o.Val == w.Val && o.Ret < est {
@@ -520,25 +521,30 @@ func c14History(r *Run, idx int) {
 						if est >= rd.Call {
 							continue
 						}
-						// w is a newer value established before the stale read was invoked
 						for _, g := range seclog {
 							if g.Op != "get" || !g.Found || g.Key != k || g.Val != rd.Val || g.T1 < est || g.T0 > rd.Ret {
 								continue
 							}
-							reached := false
+							reached, failedDelete := false, false
 							for _, c := range seclog {
-								if c.Op == "set" && !c.Err && c.Key == k && c.Val == w.Val && c.T1 < g.T0 {
+								if c.Key != k {
+									continue
+								}
+								if c.Op == "set" && !c.Err && c.Val == w.Val && c.T1 < g.T0 {
 									reached = true
 								}
+								if c.Op == "delete" && c.Err && c.T0 >= w.Call && c.T1 <= g.T0 {
+									failedDelete = true
+								}
 							}
-							if !reached {
+							if !reached && failedDelete {
 								explained = true
 							}
 						}
 					}
 				}
 				if explained {
-					key = "stale-read/after-overwrite/older-copy-handed-out-by-secondary-store/newer-value-never-reached-it"
+					key = "stale-read/after-overwrite/older-copy-handed-out-by-secondary-store/its-invalidation-by-the-set-failed"
 					from = ""
 				}
 			}
